@@ -1,1 +1,2 @@
 pub mod c11;
+pub mod c09;
